@@ -22,5 +22,5 @@ for m, n in c.most_common(8): print('UNSUPPORTED x%d: %s' % (n, m))
 for u in st['unsupported'][:1]:
     if 'tb' in u: print(u['tb'])
 for v in st['violations'][:int(os.environ.get('NV', '3'))]:
-    print('VIOLATION', v['kind'], v['label'], v.get('pos')); print('   script', json.dumps(v['script'])[:1500]); print('   trace', v['trace'][:30])
+    print('VIOLATION', v['kind'], v['label'], v.get('pos')); print('   script', json.dumps(v["script"])[:6000]); print('   trace', v['trace'][:30])
 print('known', {k: v['count'] for k, v in st['known_hits'].items()})
